@@ -1,3 +1,4 @@
 //! Reference models, written from the property statements. None of them calls
 //! into the shadow crates.
+pub mod mbc;
 pub mod timer;
